@@ -233,6 +233,7 @@ def P(pid):
                                '(A\' = B\'/(sk+e)) and wrong-old-value behaviour are not decided.')
     elif pid == 'C13':
         R = [
+            ('RF-Y refusals of local helpers are never discarded (CL03)', lambda c: rf_errors.rule_errors_not_discarded(c, scope=rf_errors.SCOPE_CL03, min_sources=0), 1),
             ('RF-D CL03 verify gates (equation, e range, attribute range)', lambda c: rf_gates.rule_accept_requirements(c, CL.C13_REQS), 6),
             ('RF-Q issued exponent leaves the loop only when valid', CL.rule_e_loop_exit, 3),
             ('RF-D a signature is computed from the key, the bases and every attribute', lambda c: rf_frame.rule_result_binding(c, table={k: v for k, v in rf_frame.RESULT_BINDING_CL03.items() if '::sign' in k and 'blind' not in k}), 8),
@@ -247,6 +248,7 @@ def P(pid):
                                '2^(le-1) < e < 2^le and gcd(e, phi) = 1, e = random_prime(le). The modular algebra is not decided.')
     elif pid == 'C14':
         R = [
+            ('RF-Y refusals of local helpers are never discarded (CL03)', lambda c: rf_errors.rule_errors_not_discarded(c, scope=rf_errors.SCOPE_CL03, min_sources=0), 1),
             ('RF-B pass-through arguments keep their role (CL03)', lambda c: rf_consts.rule_argument_roles(c, scope=('cl03::',), min_sites=25), 25),
             ('RF-D blind_sign gated by verify_proof', CL.rule_blind_sign_gated, 3),
             ('RF-D the blind signature is computed from the commitment, the key, the bases and the revealed attributes', lambda c: rf_frame.rule_result_binding(c, table={k: v for k, v in rf_frame.RESULT_BINDING_CL03.items() if 'blind_sign' in k}), 6),
@@ -265,6 +267,7 @@ def P(pid):
                                'every serialised leaf of the ZKPoK influences a comparison the verdict depends on (the commitment randomness leaves do not: known finding). Unblinding algebra is not decided.')
     elif pid == 'C15':
         R = [
+            ('RF-Y refusals of local helpers are never discarded (CL03)', lambda c: rf_errors.rule_errors_not_discarded(c, scope=rf_errors.SCOPE_CL03, min_sources=0), 1),
             ('RF-B pass-through arguments keep their role (CL03)', lambda c: rf_consts.rule_argument_roles(c, scope=('cl03::',), min_sites=25), 25),
             ('RF-C nisp5 challenge ingredients', CL.rule_nisp5_challenge, 20),
             ('RF-C Fiat-Shamir ingredients of the per-attribute proofs', lambda c: rf_hash.rule_hash_binding(c, rf_hash.CL03_FS_TABLE, CL03_FS_SCOPE,
@@ -281,6 +284,7 @@ def P(pid):
                                'influences a comparison (the commitment randomness leaves do not: known finding). Completeness algebra and soundness of the nine-response protocol are not decided.')
     elif pid == 'C16':
         R = [
+            ('RF-Y refusals of local helpers are never discarded (CL03)', lambda c: rf_errors.rule_errors_not_discarded(c, scope=rf_errors.SCOPE_CL03, min_sources=0), 1),
             ('RF-D range proof gates', lambda c: rf_gates.rule_accept_requirements(c, CL.C16_REQS), 7),
             ('RF-J proofs of square are about the decomposition', CL.rule_carried_commitment_equalities, 6),
             ('RF-C Fiat-Shamir ingredients', CL.rule_range_proof_hash_sites, 15),
